@@ -81,8 +81,50 @@ def leaves_without_loop(b, entry, loop_blocks):
     return False
 
 
+def blockcfg_rule(ctx):
+    """the limits applied to data blocks are the defaults of a fresh configuration over the file's schema - never the
+    tightened configuration used for the header (max_seq_size = 1000 there): what the writer wrote must be readable"""
+    f = ctx.f
+    nm = fn_by_label(f, P + 'reader::Reader::new_and_metadata')
+    if nm is None:
+        ctx.ob('BLOCKCFG', 'anchor', False, None, 'Reader::new_and_metadata not found')
+        return
+    ctx.touched(nm)
+    RS_ = P + 'reader::ReaderState'
+    ok, det = False, 'initial reader state not found'
+    for bb in sorted(nm.live_blocks()):
+        for s_ in nm.stmts(bb):
+            if 'assign' in s_ and s_['rv']['k'] == 'agg' and s_['rv'].get('adt') == RS_ and 'config' in (s_['rv'].get('fields') or []):
+                co = origin(nm, s_['rv']['ops'][s_['rv']['fields'].index('config')])
+                calls_ = [a[1] for a in co.atoms if a[0] == 'call']
+                fresh = len(co.atoms) == 1 and len(calls_) == 1 and strip_generics(calls_[0]).endswith('DeserializerConfig::from_schema_node')
+                root = False
+                for c in co.calls:
+                    if strip_generics(cname(c)).endswith('DeserializerConfig::from_schema_node'):
+                        ro = origin(nm, c['args'][0])
+                        root = any(strip_generics(cname(x)).endswith('root_with_fake_static_lifetime') for x in ro.calls) or \
+                            any(a[0] == 'call' and strip_generics(a[1]).endswith('root_with_fake_static_lifetime') for a in ro.atoms)
+                ok = fresh and root
+                det = 'blocks are read with DeserializerConfig::from_schema_node(<root of the parsed schema>) and nothing else: fresh %s, root of the file schema %s (%s)' % (fresh, root, co.describe()[:100])
+    ctx.ob('BLOCKCFG', 'blocks-use-a-fresh-default-config', ok, short_loc(nm.span), det)
+    # no assignment tightens that configuration afterwards in the reader module
+    tight = []
+    for b in f.body_list:
+        fl = fn_label(b)
+        if not (fl.startswith(P + 'reader::') or fl.startswith('<' + P + 'reader::')):
+            continue
+        for bb in sorted(b.live_blocks()):
+            for s_ in b.stmts(bb):
+                if 'assign' in s_ and any(isinstance(e, dict) and e.get('f') in ('max_seq_size', 'allowed_depth') and e.get('of', '').endswith('DeserializerConfig') for e in s_['assign'].get('p', [])):
+                    o = origin(b, {'copy': {'l': s_['assign']['l']}})
+                    tight.append((short_fn(fl), [e.get('f') for e in s_['assign']['p'] if isinstance(e, dict) and 'f' in e][-1]))
+    ctx.ob('BLOCKCFG', 'only-the-header-config-is-tightened', tight == [('Reader::new_and_metadata', 'max_seq_size')], short_loc(nm.span),
+           'limit assignments in the reader module: %s (reviewed: the header\'s max_seq_size only)' % tight)
+
+
 def run(ctx):
     f = ctx.f
+    blockcfg_rule(ctx)
     enc = with_helpers(fn_by_label(f, ENC))
     if enc is None:
         ctx.ob('CODEC', 'anchor', False, None, 'CompressionCodecState::encode not found')
